@@ -120,7 +120,8 @@ PROPS = {
         families=[('floor', 400, 12000, 'small', 'large')],
         rule='F_floor scenarios: layered production lines (sources incl. cycle 0 and finite budgets, handlers, processors with resources/callbacks/work orders, buffers with delay and capacity, batchers, decision gates, flow controllers, shared groups reached through several paths, sinks), scripted failures/shutdowns/restores/blocking/capacity changes, many single steps then runs, generated from VERIF_SEED (corpus/floor first); '
              'non-trivial = a failure or a pause happened and at least 2 parts were produced; distinct by scenario text',
-        explanation='Timer theorems (accept time + max(0, cycle + one-shot offset), offset consumed, FINISH needs its part, shutdown pauses / failure cancels, resumed events keep their remaining delay, cancelled events never run). End-to-end exact cycle timing is decided by the cycle-time monitor and lock-step. PARTIAL.',
+        explanation='Timer and interruption lemmas (timer = accept time + max(0, cycle + one-shot offset), offset consumed, FINISH needs exactly its part, shutdown pauses / failure cancels, C07 remaining delay). Queue-level invariant for every exception-free reachable state incl. inside runs: a handler/processor/sink has exactly one uncancelled FINISH_PROCESSING event of its own (pending or paused) while a part is in process and none otherwise - no part without timer, no stale timer after a failure (D4), nothing finished twice. The arithmetic composition "released after exactly the cycle time of operational time" over a run is decided by the cycle-time monitor and the lock-step. PARTIAL for that composition.',
+
         assumptions=['well-posed layouts', 'cycle times on the 1/8 grid']),
     'C08': dict(
         vfile='Props/C08.v', ties=['Tie/TieEnv.v', 'Tie/TieFloor.v'],
@@ -249,9 +250,9 @@ LEVELS = {
         design_ref='DESIGN.md sections 0.3 and 8, C03', technique='Coq proof (wake-up lemmas; device/event-queue link invariant over a two-level step decomposition with compound steps) + lock-step correspondence + liveness monitor at every clock advance',
         note='Partial: stability of refusals between signals and termination are not theorems.'),
     'C06': dict(
-        text='PARTIAL. Machine-checked: timer = accept time + max(0, cycle + offset) under the device id, offset one-shot, FINISH requires exactly the part in process on an operational device, shutdown pauses / failure cancels (also during a shutdown: repaired defect D4), resumed events keep remaining delay and cancelled events never run (C07). The whole-run exact-timing statement is decided by the cycle-time monitor + lock-step.',
-        design_ref='DESIGN.md sections 0.3 and 8, C06', technique='Coq proof (timer and interruption lemmas + C07 event-queue theorems) + lock-step correspondence + cycle-time monitor',
-        note='Partial: composition over a run not a single theorem.'),
+        text='PARTIAL. Machine-checked: timer = accept time + max(0, cycle + offset) under the device id, offset one-shot, FINISH requires exactly the part in process on an operational device, shutdown pauses / failure cancels (also during a shutdown: repaired defect D4), resumed events keep remaining delay and cancelled events never run (C07); and the queue-level invariant for every exception-free reachable state including every state inside a run: exactly one live FINISH_PROCESSING event per part in process (pending or paused), none otherwise. The whole-run exact-timing arithmetic is decided by the cycle-time monitor + lock-step.',
+        design_ref='DESIGN.md sections 0.3 and 8, C06', technique='Coq proof (timer and interruption lemmas + C07 event-queue theorems + device/event-queue count invariant over a step decomposition with local blocks) + lock-step correspondence + cycle-time monitor',
+        note='Partial: the arithmetic composition over a run is not a single theorem; sources are outside the count invariant (their cycle timer is covered by the local lemmas and the monitor).'),
     'C08': dict(
         text='PARTIAL. Machine-checked: offers go to a permutation of the configured downstream list sorted by idle-since time; gates/blocked inputs refuse without any change; accepted part history = offered history ++ [device]; identities never rewritten. Whole-route statements decided by the routing monitor + lock-step.',
         design_ref='DESIGN.md sections 0.3 and 8, C08', technique='Coq proof (routing lemmas: permutation + sortedness of the offer order, refusal guards) + lock-step correspondence + routing monitor',
